@@ -220,6 +220,12 @@ func (x *Exec) checkBalanced(fr *Frame, st *State, ctx *FuncCtx) {
 	x.oblige(fr, st, "balanced", "return", BoolLit(same), nil)
 	ob := x.Obls[len(x.Obls)-1]
 	ob.Tag = "C14"
+	// "ghost balanced-also Cxx": a lock kept past the return also breaks property Cxx of this function
+	for _, g := range ctx.Contract.Ghost {
+		if strings.HasPrefix(g, "balanced-also ") {
+			ob.Tag += "," + strings.Join(strings.Fields(strings.TrimPrefix(g, "balanced-also ")), ",")
+		}
+	}
 	if !same {
 		ob.Pos = fmt.Sprintf("held at return: %v", descs)
 	}
